@@ -80,7 +80,7 @@ define flow value
   user ask value
   # Extract a short value for the user.
   $val = ...
-  bot inform value
+  bot $val
 """
 
 V2_VALUE = """
@@ -130,7 +130,7 @@ V1_ROUTES = ("predef", "llm", "pl", "lp", "ll", "next_llm", "next_predef", "act_
 INTENT = dict((r, i) for r, (i, _) in fakes.ROUTES.items())
 INTENT["value"] = "ask value"
 FIRST_BOT = {"predef": "express greeting", "llm": "inform weather", "pl": "express greeting", "lp": "tell story", "ll": "tell first fact",
-             "next_llm": "inform time", "next_predef": "offer help", "act_llm": "inform status", "value": "inform value"}
+             "next_llm": "inform time", "next_predef": "offer help", "act_llm": "inform status", "value": "$val"}
 
 
 def make_cfg(mode, self_rails=False, exc=False):
@@ -223,7 +223,12 @@ RAW = {
     "co1-set": "set $secret_var = 1",
     "co1-event": "event UtteranceUserActionFinished(final_transcript=\"x\")",
     "co1-create-event": "create event BotIntent(intent=\"x\")",
-    "co1-goto-ish": "label x\ngoto x",
+    "co1-goto-cycle": "label x\ngoto x",
+    "co1-bot-goto-cycle": "bot a\nlabel x\ngoto x",
+    "co1-while-continue": "while True\n  continue",
+    "co1-while-if-false": "while True\n  if False\n    bot a",
+    "co1-while-false": "while False\n  bot a\nbot b",
+    "co1-break-alone": "break",
     "co1-many-steps": "\n".join(f"bot step {i}" for i in range(60)),
     "co1-when": "when user x\n  bot y",
     "co1-else-alone": "else\n  bot x",
@@ -313,6 +318,9 @@ RAW = {
     "py-tuple": "(1, 2)",
     "py-set": "{1, 2}",
     "py-bytes": "b'x'",
+    "py-complex": "1+2j",
+    "py-ellipsis-list": "[...]",
+    "py-nested-set": "[{1, 2}]",
     "py-semicolon": f'"{M} semi";',
     "py-var-prefix": f'$answer = "{M} again"',
     "py-nested": "[" * 200 + "]" * 200,
@@ -390,9 +398,18 @@ CORE_PAYLOADS = ["jinja-expr", "jinja-var", "jinja-stmt", "dollar-var", "brace-d
 INS_TOKENS = ['"', "'", "\n", "\n  ", " ", "$", "{", "}", "{{", "}}", "{%", ":", "bot ", "user ", "#", "(", ")", BS, "\t", "...", "=", "and ", "or ", ",", "-", "\x00", "é", "$secret_var", "{{ 7*7 }}", "define flow ", "execute ", "if ", "while ", "flow ", "bot action: ", "bot intent: ", "user intent: "]
 
 
+def raw_spec(c):
+    """placement spec of a corpus text (the text travels in the case; the 50k texts are built at run time)."""
+    return {"c": c, "long": True} if c in LONG else {"c": c, "text": RAW[c]}
+
+
+def msg_spec(c):
+    return {"c": c, "payload": PAYLOADS[c]}
+
+
 def st_spec():
-    raw = st.sampled_from(sorted(RAW)).map(lambda c: {"c": c, "raw": True})
-    msg = st.sampled_from(sorted(PAYLOADS)).map(lambda c: {"c": c, "msg": True})
+    raw = st.sampled_from(sorted(RAW)).map(raw_spec)
+    msg = st.sampled_from(sorted(PAYLOADS)).map(msg_spec)
     pos = st.integers(0, 1000)
     op = st.one_of(
         st.tuples(st.just("del"), pos, st.integers(1, 12)),
@@ -461,7 +478,23 @@ def mutate(text, ops):
 # ------------------------------------------------------------------------------------------------
 # the session: well-formed answers for every task of every mode + resolution of the placements
 
-MESSAGE_TASKS = ("generate_bot_message", "general", "single_call", "v2_flow_continuation", "v2_intent_and_action", "v2_value", "v2_passthrough")
+MESSAGE_TASKS = ("generate_bot_message", "general", "single_call", "v1_value", "v2_flow_continuation", "v2_intent_and_action", "v2_flow_from_name", "v2_value", "v2_passthrough")
+
+
+PURE_MESSAGE_TASKS = ("generate_bot_message", "general", "v1_value", "v2_value", "v2_passthrough")  # the whole answer is the text
+LLM_MARK = re.compile(r"LM\d+C\d+Z")
+
+
+def _family(payload):
+    if "{{" in payload or "{%" in payload:
+        return "jinja"
+    if "{" in payload:
+        return "brace"
+    if "$" in payload:
+        return "dollar"
+    if "%" in payload:
+        return "percent"
+    return "expression"
 
 
 def classify(prompt, mode):
@@ -470,6 +503,8 @@ def classify(prompt, mode):
         tail = prompt.rstrip()
         if "# For each user message, generate the next steps and finish with the bot message." in prompt:
             return "single_call"
+        if "# Complete the following flow based on its name:" in prompt:
+            return "v2_flow_from_name"
         if re.search(r"\$\w+ =$", tail):
             return "v1_value" if "# This is how the bot thinks:" in prompt else "v2_value"
     task = fakes.classify_prompt(prompt)
@@ -515,6 +550,8 @@ class C17Session(fakes.Session):
         if task == "v2_intent_and_action":
             intent = "user expressed greeting" if route == "predef" else "user asked something else"
             return f' {intent}\nbot intent: bot provide answer\nbot action: bot say "{text}"'
+        if task == "v2_flow_from_name":
+            return f'  bot say "{text}"'
         if task == "v2_flow_continuation":
             return f'bot provide answer\nbot action: bot say "{text}"'
         if task == "generate_bot_message":
@@ -536,17 +573,16 @@ class C17Session(fakes.Session):
                 return base
         c = spec["c"]
         if spec.get("text") is not None:
-            answer, kind = spec["text"], "raw"
-        elif spec.get("raw"):
-            answer = LONG[c](marker) if c in LONG else RAW[c].replace(M, marker)
-            kind = "raw"
-        elif spec.get("msg"):
-            answer = self.wellformed(task, prompt, turn, k, payload=f"{marker} {PAYLOADS[c]} tail")
+            answer, kind = spec["text"].replace(M, marker), "raw"
+        elif spec.get("long"):
+            answer, kind = LONG[c](marker), "raw"
+        elif spec.get("payload") is not None:
+            answer = self.wellformed(task, prompt, turn, k, payload=f"{marker} {spec['payload']} tail")
             kind = "msg"
         else:
             answer = mutate(base, spec["ops"])
             kind = "mut"
-        self.reached.append({"turn": turn, "k": k, "task": task, "c": c, "kind": kind, "answer": answer, "base": base})
+        self.reached.append({"turn": turn, "k": k, "task": task, "c": c, "kind": kind, "answer": answer, "base": base, "payload": spec.get("payload")})
         return answer
 
 
@@ -556,20 +592,26 @@ class C17Session(fakes.Session):
 CONTEXT_MSG = {"role": "context", "content": {"secret_var": SECRET}}
 
 
+def _chain(tb):
+    """nemoguardrails frames of a traceback, outermost first: ['file.py:function', ...]."""
+    out = []
+    for fr in traceback.extract_tb(tb):
+        fn = fr.filename.replace(os.sep, "/")
+        if "/nemoguardrails/" in fn and "/verif/" not in fn:
+            out.append(f"{os.path.basename(fn)}:{fr.name}")
+    return out
+
+
 def _frames(exc):
-    """innermost nemoguardrails frame of the traceback: 'file.py:function'."""
-    best = None
-    e = exc
-    seen = 0
+    """(innermost nemoguardrails frame, whole chain) of an exception, following __cause__/__context__ if needed."""
+    e, seen = exc, 0
     while e is not None and seen < 5:
-        for fr in traceback.extract_tb(e.__traceback__):
-            if "nemoguardrails" in fr.filename and "/verif/" not in fr.filename:
-                best = f"{os.path.basename(fr.filename)}:{fr.name}"
-        if best:
-            break
+        chain = _chain(e.__traceback__)
+        if chain:
+            return chain[-1], chain
         e = e.__cause__ or e.__context__
         seen += 1
-    return best or "outside-nemoguardrails"
+    return "outside-nemoguardrails", []
 
 
 class C17Pipeline(pipeline.Pipeline):
@@ -624,7 +666,7 @@ class C17Pipeline(pipeline.Pipeline):
         obs["raw"] = res
         if exc is not None:
             obs["exc_type"] = type(exc).__name__
-            obs["exc_where"] = _frames(exc)
+            obs["exc_where"], obs["exc_chain"] = _frames(exc)
             obs["exc_msg"] = str(exc)[:300]
         return obs
 
@@ -720,7 +762,7 @@ def enumerate_cases(tier):
             if route == "llm" and mode in ("three", "multi", "passdlg"):
                 npos = 2
             for k in range(npos):
-                specs = [{"c": c, "raw": True} for c in raws] + [{"c": c, "msg": True} for c in pays]
+                specs = [raw_spec(c) for c in raws] + [msg_spec(c) for c in pays]
                 if v2 and tier == "quick":
                     specs = specs[:: 2] if k == 0 else specs[1:: 2]
                 for spec in specs:
@@ -774,11 +816,11 @@ def _check(case, obs):
         where = f"mode {mode}, turn {t}" + (" (benign closing turn)" if t == last else "") + "; hostile answers so far: " + repr(
             [(r["turn"], r["k"], r["task"], r["c"], r["answer"][:60]) for r in sess.reached if r["c"] is not None and r["turn"] <= t]
         )
-        detail = {"mode": mode, "turn": t, "benign": t == last, "hostile": [[r["turn"], r["k"], r["task"], r["c"], r["kind"], r["answer"][:2000]] for r in sess.reached if r["c"] is not None and r["turn"] <= t]}
+        detail = {"mode": mode, "turn": t, "benign": t == last, "hostile": [[r["turn"], r["k"], r["task"], r["c"], r["kind"], r["answer"]] for r in sess.reached if r["c"] is not None and r["turn"] <= t]}
         if o["raised"]:
             msg = o["exc_msg"]
             what = "Too many events" if pipeline.EVENT_BUDGET in msg else o["exc_type"]
-            detail.update(exc_type=o["exc_type"], exc_where=o["exc_where"], exc_msg=msg)
+            detail.update(exc_type=o["exc_type"], exc_where=o["exc_where"], exc_chain=o["exc_chain"], exc_msg=msg)
             raise Violation(f"raised:{what}@{o['exc_where']}", f"generate raised {o['exc_type']}: {msg[:160]!r} ({where})"[:900], detail)
         prob = _wellformed_problem(cfg, o)
         if prob:
@@ -796,21 +838,26 @@ def _check(case, obs):
             labels.append(f"benign-turn-without-llm-call:{mode}")
         # template / variable syntax at message-text positions
         by_design = any(r["task"] not in MESSAGE_TASKS and "secret_var" in r["answer"] for r in hostile)
+        bare = LLM_MARK.sub("", text)
         for r in hostile:
-            if r["kind"] != "msg" or r["task"] not in MESSAGE_TASKS:
+            if r["task"] not in MESSAGE_TASKS or (r["kind"] != "msg" and r["task"] not in PURE_MESSAGE_TASKS):
                 continue
             marker = mk_llm(r["turn"], r["k"])
             if marker not in text:
-                labels.append(f"payload-not-uttered:{r['task']}")
+                if r["kind"] == "msg":
+                    labels.append(f"payload-not-uttered:{r['task']}")
                 continue
-            payload = PAYLOADS[r["c"]]
-            d = dict(detail, task=r["task"], payload_class=r["c"], payload=payload, reply=text[:400])
-            if SECRET in text and not by_design:
-                raise Violation(f"template-evaluated:{r['c']}:{r['task']}", f"payload {payload!r} returned by the LLM as message text came back with the value of the context variable: reply {text[:200]!r} ({where})"[:900], d)
-            if "7*7" in payload and "49" in text.replace(marker, ""):
-                raise Violation(f"template-evaluated:{r['c']}:{r['task']}", f"payload {payload!r} returned by the LLM as message text was evaluated: reply {text[:200]!r} ({where})"[:900], d)
+            payload = r["payload"] if r["kind"] == "msg" else r["answer"]
+            fam = _family(payload)
+            d = dict(detail, task=r["task"], payload_class=r["c"], payload=payload, answer_kind=r["kind"], reply=text[:400])
+            if SECRET in text and "secret_var" in payload and not by_design:
+                raise Violation(f"template-evaluated:{fam}-leaked:{r['task']}", f"{r['kind']} answer {payload[:120]!r} returned by the LLM as message text came back with the value of the context variable: reply {text[:200]!r} ({where})"[:900], d)
+            if "7*7" in payload and "49" in bare:
+                raise Violation(f"template-evaluated:{fam}-computed:{r['task']}", f"{r['kind']} answer {payload[:120]!r} returned by the LLM as message text was evaluated: reply {text[:200]!r} ({where})"[:900], d)
+            if r["kind"] != "msg":
+                continue
             if payload not in text:
-                raise Violation(f"template-evaluated:{r['c']}:{r['task']}", f"payload {payload!r} returned by the LLM as message text is not in the reply literally although the reply derives from that answer: reply {text[:200]!r} ({where})"[:900], d)
+                raise Violation(f"template-evaluated:{fam}-altered:{r['task']}", f"payload {payload!r} returned by the LLM as message text is not in the reply literally although the reply derives from that answer: reply {text[:200]!r} ({where})"[:900], d)
             labels.append(f"payload-literal:{r['task']}")
             counters[f"literal|{cfg['mode']}|{r['task']}|{r['c']}"] = 1
     keys = set()
@@ -858,30 +905,127 @@ def _run(case):
 
 
 def _rearm():
-    """Make the runner's one-shot watchdog periodic: an alarm raised inside a sub-task step is swallowed by asyncio."""
+    """Make the one-shot watchdog periodic: an alarm raised inside a sub-task step is swallowed by asyncio."""
     cur, _ = signal.getitimer(signal.ITIMER_REAL)
     if cur > 0:
         signal.setitimer(signal.ITIMER_REAL, cur, 2.0)
 
 
+CYCLE_WORDS = ("goto", "continue")
+SHORT_LIMIT = 6  # seconds; ~400x the normal time of a Colang 1.0 turn
+
+
+def _limit(case):
+    """Cases carrying the text signature of the listed hang C17-F7e (multi-step mode, a corpus text with a `goto` / `continue`
+    cycle) run under a short inner limit, so that the listed finding costs seconds, not minutes, per instance."""
+    if case["config"]["mode"] != "multi":
+        return CASE_TIMEOUT
+    for _, _, spec in case.get("place", []):
+        if any(w in (spec.get("text") or "") for w in CYCLE_WORDS):
+            return SHORT_LIMIT
+    return CASE_TIMEOUT
+
+
+def _guarded(case, seconds):
+    """_run under an inner watchdog; returns (result, None) or (None, frame chain at the point of interruption)."""
+    try:
+        with core.Watchdog(seconds):
+            _rearm()
+            return _run(case), None
+    except core.CaseTimeout as e:
+        signal.setitimer(signal.ITIMER_REAL, 0)
+        chain = _chain(e.__traceback__)
+        reset_all()
+        return None, chain
+
+
 def prop(case):
     mode = case["config"]["mode"]
+    limit = _limit(case)
     try:
-        _rearm()
-        return _run(case)
-    except core.CaseTimeout:
+        res, chain = _guarded(case, limit)
+    except core.CaseTimeout:  # the runner's own alarm (only if it is shorter than ours)
         signal.setitimer(signal.ITIMER_REAL, 0)
         reset_all()
+        raise
+    if chain is None:
+        return res
     # confirmation: alone, fresh runtime, three times the limit
+    res, chain2 = _guarded(case, limit * 3)
+    if chain2 is None:
+        return res
+    where = chain2[-1] if chain2 else "unknown"
+    raise Violation(
+        f"hang:{mode}",
+        f"generate did not return within {limit * 3}s (second run on a fresh instance, first limit {limit}s); interrupted in {where}; placements {case.get('place')!r}"[:900],
+        {"mode": mode, "hang": True, "hang_where": where, "hang_chain": chain2, "first_chain": chain},
+    )
+
+
+# ------------------------------------------------------------------------------------------------
+# known findings (signatures as narrow as the observations allow; anything else stays a VIOLATION)
+
+
+def _f7a_shape(answer):
+    """True iff the documented shrink loop (drop last lines until the text parses as a file) leaves a body that parses
+    un-wrapped but not as the body of `define flow <id>:` with exactly one flow (uses the tree's parser as a tool)."""
+    from textwrap import indent
+
+    from nemoguardrails.colang import parse_colang_file
+
+    def parses(content, one_flow=False):
+        try:
+            res = parse_colang_file("dynamic.co", content=content)
+            return not one_flow or len(res["flows"]) == 1
+        except Exception:
+            return False
+
     try:
-        with core.Watchdog(CASE_TIMEOUT * 3):
-            _rearm()
-            return _run(case)
+        with core.Watchdog(10):
+            lines = answer.split("\n")
+            while not parses("\n".join(lines)):
+                if len(lines) == 1:
+                    return False  # the loop answers `bot general response`: no start_flow at all
+                lines = lines[:-1]
+            body = "\n".join(lines)
+            return not parses("define flow x:\n" + indent(body, "  "), one_flow=True)
     except core.CaseTimeout:
-        signal.setitimer(signal.ITIMER_REAL, 0)
-        reset_all()
-        raise Violation(f"hang:{mode}", f"generate did not return within {CASE_TIMEOUT * 3}s (second run, fresh instance); placements {case.get('place')!r}"[:900], {"mode": mode, "hang": True})
+        return False
+
+
+def _hostile_tasks(d):
+    """tasks at which a hostile answer was returned in the violating turn."""
+    return {h[2] for h in d.get("hostile", []) if h[0] == d.get("turn")}
 
 
 def known(case, violation):
+    d = violation.detail or {}
+    kind = violation.kind
+    mode = d.get("mode", "")
+    chain = d.get("exc_chain") or []
+    if kind.startswith("raised:") and mode.startswith("multi") and "generate_next_steps" in _hostile_tasks(d):
+        in_start_flow = "runtime.py:_process_start_flow" in chain
+        if in_start_flow and ("__init__.py:parse_colang_file" in chain or (d.get("exc_where") == "runtime.py:_process_start_flow" and d.get("exc_type") == "AssertionError")):
+            # generated body validated un-wrapped, parsed wrapped: the second parse is unguarded.  Precise signature: the
+            # body that survives the documented parse-and-shrink loop parses on its own, and fails only in its wrapped form.
+            answers = [h[5] for h in d.get("hostile", []) if h[0] == d.get("turn") and h[2] == "generate_next_steps"]
+            if answers and all(_f7a_shape(a) for a in answers):
+                return "C17-F7a"
+            return None
+        if d.get("exc_type") == "IndexError" and d.get("exc_where") == "runtime.py:generate_events" and not in_start_flow:
+            return "C17-F7b"  # started flow yields no next step: next_events[-1] on an empty list
+        if "Too many events" in kind and d.get("exc_where") == "runtime.py:generate_events":
+            return "C17-F7c"  # generated flow needs more than 100 events (while True, >= ~25 steps)
+        if d.get("exc_type") == "KeyError" and d.get("exc_where") == "flows.py:_slide_with_subflows" and in_start_flow:
+            return "C17-F7d"  # `do <unknown subflow>` in the generated flow
+    if kind == "hang:multi" and "sliding.py:slide" in (d.get("hang_chain") or []) and "runtime.py:_process_start_flow" in (d.get("hang_chain") or []):
+        return "C17-F7e"  # jump cycle without a yielding element in the generated flow: slide() never returns
+    if kind.startswith("template-evaluated:") and d.get("task") in ("v2_flow_continuation", "v2_intent_and_action", "v2_flow_from_name"):
+        payload, reply = d.get("payload", ""), d.get("reply", "")
+        if "$" in payload and "{" not in payload and re.sub(r"\$([a-zA-Z_][a-zA-Z0-9_]*)", r"var_\1", payload) in reply:
+            return "C17-F7f"  # `$name` inside a Colang 2.x string literal rewritten to `var_name`
+        if "{" in payload:
+            return "C17-F7g"  # `{...}` in the generated `bot say "..."` is Colang 2.x string interpolation: evaluated / braces collapsed
+    if kind == "raised:Exception@serialization.py:encode_to_dict" and mode == "v2value" and "Unhandled type in encode_to_dict" in d.get("exc_msg", "") and "v2_value" in {h[2] for h in d.get("hostile", [])}:
+        return "C17-F7h"  # generated value of a literal type the state serializer cannot encode (Ellipsis, bytes, complex)
     return None
